@@ -7,8 +7,10 @@ CHECKS = {
  "C01": "Every decoding entry point is proved panic-free (index, slice, nil, division duties at every site), terminating (loop variant) and to satisfy the attribute-view postcondition (each value a view of exactly the declared bytes, in wire order, inside the declared body) for all byte strings, lengths and capacities, in both tag sets. Not covered: the allocation-size clause.",
  "C02": "Decode's success is proved equivalent (iff) to the RFC 5389 acceptance predicate and its struct fields equal to the reference parse, for every input, unbounded; Get/Contains proved against a least-index specification. Not covered yet: ForEach.",
  "C07": "Every typed getter and both checkers are proved panic-free for every attribute length and buffer capacity (incl. cap==len), never to re-slice an attribute value beyond its length (locality duty), and to assign nothing but their destination (frame), with the message's visible bytes and length proved restored by MessageIntegrity.Check; both tag sets.",
+ "C03": "Every building operation (Reset, WriteHeader, SetType, transaction-ID setters, Add, every typed/integrity/fingerprint setter, Build, WriteAttributes, Encode) is proved against a complete functional contract over the raw bytes and the struct: Add appends exactly one TLV (type, length, value bytes, zero padding) after an untouched body and mirrors it in Attributes; the header invariant Built (cookie, type per RFC bit layout, length == len(Raw)-20, multiple of 4, transaction ID) is preserved by every operation and by the Setter interface contract, so it holds after any sequence (unbounded history by modular induction); Encode's header and struct effect are proved for every prior state. Not machine-checked: the closing decode(encode(m)) == m composition (argued from Add's and Decode's contracts), and the wire bytes of re-added attributes inside Encode's loop (bounded stand-in planned; solver budget).",
  "C05": "FingerprintAttr.AddTo is proved to append exactly CRC-32(all preceding bytes with the final header length) XOR 0x5354554e (crc32 an uninterpreted function of the byte sequence, with sequence extensionality), and Check is proved to succeed iff the first FINGERPRINT value is 4 bytes and equals that value over Raw[:len-8]; both tag sets. The bit-flip/burst corollary rests on the assumed detection property of the CRC-32 polynomial (not about this code).",
  "C06": "Every typed setter is proved to append exactly the RFC 5389 wire bytes as a function of its argument (family codes, port and address XOR-ed with cookie and transaction ID via xor lemmas proved over bit-vectors, class/number split, 16-bit UNKNOWN-ATTRIBUTES entries) and every getter to return the RFC decoding function of the value bytes, for all values; the add-then-decode-then-get composition itself is argued from these contracts, not machine-checked.",
+ "C08": "The postconditions of Decode, Add, WriteHeader, Build, Encode, the typed setters are complete functions of the inputs (exact attribute count, zero padding, all 20 header bytes, header length == len(Raw)-20 for every prior state), so a reused Message is indistinguishable from a fresh one; copy semantics proved as ownership clauses: after Decode/Write/UnmarshalBinary/GobDecode/CloneTo the new Raw holds the argument's bytes in the old Raw region or a fresh one (never the argument's), Add's value is copied, MarshalBinary returns a fresh region.",
  "C09": "Each setter is proved to return an error iff the value is unrepresentable (literal limits 513/763/763/763, reason 763, IP length not 4/16, missing default reason, FINGERPRINT present) and, on error, to leave raw bytes, length and attribute list unchanged (frame + Unchanged postcondition); Build is proved, over a ghost record of setter outcomes, to return the first failing setter's error and call no later setter; both tag sets.",
  "C13": "Every Agent method is proved against the abstract transaction-table specification: return value, new table (as a relation over all ids, unbounded) and the ghost event log (handler invocations with id and error), incl. Collect emitting exactly one timeout for exactly the ids whose deadline is strictly before t (range-over-map by ghost enumeration, loop invariants) and Close one closed event per remaining id; any call sequence follows by the representation invariant AgentInv. Handlers are assumed not to re-enter the agent in this sequential specification.",
  "C14": "Lock discipline proved for every Agent method: guarded fields (transactions, closed, handler) and the map are only touched while the ghost flag held[agent] is set, Lock only when clear, every exit with it clear, one critical section per method, no handler call inside it (except Close, the property's carve-out); the critical section's effect is C13's contract. Linearizability, race- and deadlock-freedom then follow by the standard single-lock reduction argument, which is assumed, not machine-checked; schedules are not explored.",
